@@ -146,8 +146,8 @@ harnesses! {
         reach!("end");
         core::mem::forget(r);
     }
-    fn c20_p_seq_mdna_mask_l16 [40] {
-        // 16 four-bit symbols fill the storage word exactly
+    fn c20_t_seq_mdna_mask_l16 [20] {
+        // 16 four-bit symbols fill the storage word exactly; thorough tier: 390 s / 4.5 GB at unwind 20 (no verdict after 14 min at unwind 40)
         let w = any_words::<2>();
         let src = arr::<masked::Dna, 32, 2>(w);
         let mut s = owned_cap(&src, 0, 16, 16);
@@ -159,6 +159,21 @@ harnesses! {
         assert!(s.len() == 16, "C20.seq.length_preserved");
         assert!(s.nth(i).to_bits() == want, "C20.seq.mdna_position_wise");
         reach!(i == 15, "last symbol of the word");
+        core::mem::forget(s);
+    }
+    fn c20_q_seq_mdna_unmask_l2 [10] {
+        // the 4-bit codec has no mask flag: unmask inverts the pattern exactly like mask (N 0000 <-> n 1111 included)
+        let w = any_words::<2>();
+        let src = arr::<masked::Dna, 32, 2>(w);
+        let mut s = owned_cap(&src, 0, 2, 2);
+        s.unmask();
+        let i = any_usize();
+        assume(i < 2);
+        let old = oracle::MDNA.from_bits[sym(&w, 0, 4, i) as usize] as u8;
+        let want = oracle::MDNA.from_bits[(old ^ 0b1111) as usize] as u8;
+        assert!(s.len() == 2, "C20.seq.length_preserved");
+        assert!(s.nth(i).to_bits() == want, "C20.seq.mdna_unmask_position_wise");
+        reach!(sym(&w, 0, 4, i) == 0, "upper-case N");
         core::mem::forget(s);
     }
     fn c20_q_seq_mdna_mask_l2 [10] {
